@@ -34,6 +34,49 @@ MIN_OBLIGATIONS = 20
 MIXIN = "liquid.builtin.loaders.mixins.CachingLoaderMixin"
 
 
+def check_namespace_key(repo: Repo, res: Result, rule: str = "C23-NS") -> None:
+    """``CachingLoaderMixin.cache_key`` returns the bare name only when no namespace applies and
+    otherwise a string built from both the namespace *value as found* (presence, not truthiness)
+    and the name; the keyword argument wins over the context.  Shared with C17: the template cache
+    is a memo, and a key that loses a component makes the output depend on render history."""
+    ck_fn = repo.own_method(MIXIN, "cache_key")
+    # --- C23-NS --------------------------------------------------------------
+    node = ck_fn.node
+    res.ob(ck_fn.qual, 3)
+    rets = [st for st in walk_no_nested(node) if isinstance(st, ast.Return)]
+    ns_rets = []
+    for r in rets:
+        v = r.value
+        if is_name(v, "name"):
+            continue
+        if isinstance(v, ast.JoinedStr):
+            fv = [x.value for x in v.values if isinstance(x, ast.FormattedValue)]
+            has_name = any(is_name(x, "name") for x in fv)
+            ns_src = [
+                x
+                for x in fv
+                if isinstance(x, ast.Subscript) and is_self_attr(x.slice, "namespace_key")
+            ]
+            if has_name and len(ns_src) == 1 and len(fv) == 2:
+                ns_rets.append((r, text(ns_src[0].value)))
+                continue
+        res.add(rule, ck_fn.qual, f"return:{text(v)}", f"cache_key returns `{text(v)}`: neither the bare name nor a string of namespace value and name", ck_fn.file, r.lineno)
+    srcs = [s for _, s in ns_rets]
+    if srcs[:2] != ["args", "context.globals"]:
+        res.add(rule, ck_fn.qual, "priority", f"cache_key must try the keyword argument before context globals; found sources {srcs}", ck_fn.file, ck_fn.line)
+    # no-namespace early return
+    first = [s for s in node.body if not (isinstance(s, ast.Expr) and isinstance(s.value, ast.Constant))][0]
+    if not (
+        isinstance(first, ast.If)
+        and isinstance(first.test, ast.UnaryOp)
+        and is_self_attr(first.test.operand, "namespace_key")
+        and isinstance(first.body[0], ast.Return)
+        and is_name(first.body[0].value, "name")
+    ):
+        res.add(rule, ck_fn.qual, "no-namespace", "cache_key must return the bare name when no namespace_key is configured", ck_fn.file, ck_fn.line)
+
+
+
 def run(repo: Repo) -> Result:
     res = Result(PID)
     res.rules = ["C23-SIB", "C23-KEY", "C23-STORE", "C23-NS", "C23-MRO", "C23-UPTODATE"]
@@ -241,40 +284,7 @@ def run(repo: Repo) -> Result:
             res.add("C23-STORE", fn.qual, "globals-on-hit", f"{fn.qual}: a cache hit must carry exactly the globals of this request (`cached.globals = globals or {{}}` right before returning it)", fn.file, fn.line)
         res.sample({"rule": "C23-STORE", "function": fn.qual, "loaded_vars": sorted(loaded_vars), "read_vars": sorted(read_vars), "stores": n_store})
 
-    # --- C23-NS --------------------------------------------------------------
-    node = ck_fn.node
-    res.ob(ck_fn.qual, 3)
-    rets = [st for st in walk_no_nested(node) if isinstance(st, ast.Return)]
-    ns_rets = []
-    for r in rets:
-        v = r.value
-        if is_name(v, "name"):
-            continue
-        if isinstance(v, ast.JoinedStr):
-            fv = [x.value for x in v.values if isinstance(x, ast.FormattedValue)]
-            has_name = any(is_name(x, "name") for x in fv)
-            ns_src = [
-                x
-                for x in fv
-                if isinstance(x, ast.Subscript) and is_self_attr(x.slice, "namespace_key")
-            ]
-            if has_name and len(ns_src) == 1 and len(fv) == 2:
-                ns_rets.append((r, text(ns_src[0].value)))
-                continue
-        res.add("C23-NS", ck_fn.qual, f"return:{text(v)}", f"cache_key returns `{text(v)}`: neither the bare name nor a string of namespace value and name", ck_fn.file, r.lineno)
-    srcs = [s for _, s in ns_rets]
-    if srcs[:2] != ["args", "context.globals"]:
-        res.add("C23-NS", ck_fn.qual, "priority", f"cache_key must try the keyword argument before context globals; found sources {srcs}", ck_fn.file, ck_fn.line)
-    # no-namespace early return
-    first = [s for s in node.body if not (isinstance(s, ast.Expr) and isinstance(s.value, ast.Constant))][0]
-    if not (
-        isinstance(first, ast.If)
-        and isinstance(first.test, ast.UnaryOp)
-        and is_self_attr(first.test.operand, "namespace_key")
-        and isinstance(first.body[0], ast.Return)
-        and is_name(first.body[0].value, "name")
-    ):
-        res.add("C23-NS", ck_fn.qual, "no-namespace", "cache_key must return the bare name when no namespace_key is configured", ck_fn.file, ck_fn.line)
+    check_namespace_key(repo, res)
 
     # --- C23-MRO -----------------------------------------------------------
     caching = [c for c in repo.subclasses(MIXIN, strict=True)]
